@@ -14,7 +14,7 @@ PROP = "C14"
 TECHNIQUE = "Hypothesis-generated catalogs (awkward ids, all ms phases over 1900..2200, extreme / 17-digit doubles) through four write->load round trips compared field by field, bitwise"
 RULE = ("one case = catalog of 0..30 events (ids: printable ASCII <= 64 chars incl. ',' '\"' ';' and spaces; origin times uniform over "
         "1900..2200 at every millisecond phase plus whole seconds; coordinates/depth/magnitude as shortest-repr decimals, arbitrary doubles and "
-        "+-180, +-90, 0, -0.0) x integer catalog id x name x optional unmasked region x write options (header, append in two parts); "
+        "+-180, +-90, 0, -0.0) x integer catalog id x name x optional unmasked region (half of them with magnitude bins bound; events below the first edge occur) x write options (header, append in two parts); "
         "round trips: write_ascii->csep.load_catalog, to_dict->from_dict, write_json->load_json, to_dataframe->from_dataframe. "
         "Non-trivial = an id containing a delimiter or quote and a pre-1970 or non-whole-second time; distinct = canonical JSON.")
 ASSUMPTIONS = ["ids are non-empty, not all blanks, <= 64 printable ASCII characters incl. leading/trailing blanks (the dtype stores 256 bytes)",
